@@ -93,6 +93,21 @@ class _Failed(Exception):
     pass
 
 
+class _Refused(Exception):
+    pass
+
+
+def _make(cls, keys, **kw):
+    """Construct the reaction; ChemkinReaction reads species.phase at construction and a StatMech
+    species has none - that is the model refusing, not a violation."""
+    try:
+        return _cls(cls)(**kw)
+    except AttributeError as e:
+        if cls == 'ChemkinReaction' and "no attribute 'phase'" in str(e) and any(k in R.STATMECH_KEYS for k in keys):
+            raise _Refused('ChemkinReaction: StatMech species have no .phase')
+        raise
+
+
 def _call(ctx, sig, case, fn, *a, **kw):
     ctx.evals()
     try:
@@ -197,7 +212,7 @@ def _pool_build(case):
               products=[s for s, _ in ps], products_stoich=[nu for _, nu in ps])
     if ts:
         kw.update(transition_state=[s for s, _ in ts], transition_state_stoich=[nu for _, nu in ts])
-    return _cls(case['cls'])(**kw), rs, ts, ps
+    return _make(case['cls'], [k for k, _ in case['R'] + case['P_side']], **kw), rs, ts, ps
 
 
 def _check_clamp(case, ctx):
@@ -308,9 +323,10 @@ def _check_bep(case, ctx):
     rs = [(get(k), nu) for k, nu in case['R']]
     ps = [(get(k), nu) for k, nu in case['P']]
     bep = _bep(cls, case['slope'], case['intercept'], case['desc'])
-    rxn = _cls(cls)(reactants=[s for s, _ in rs], reactants_stoich=[nu for _, nu in rs],
-                    products=[s for s, _ in ps], products_stoich=[nu for _, nu in ps],
-                    transition_state=[bep], transition_state_stoich=[case['nu_ts']])
+    rxn = _make(cls, [k for k, _ in case['R'] + case['P']],
+                reactants=[s for s, _ in rs], reactants_stoich=[nu for _, nu in rs],
+                products=[s for s, _ in ps], products_stoich=[nu for _, nu in ps],
+                transition_state=[bep], transition_state_stoich=[case['nu_ts']])
     ctx.trace()
     desc = case['desc']
     ctx.tag('bep:' + desc)
@@ -635,12 +651,15 @@ def _sig(case):
 
 
 def check_case(case, ctx):
-    if case['part'] == 'clamp':
-        _check_clamp(case, ctx)
-    elif case['part'] == 'bep':
-        _check_bep(case, ctx)
-    else:
-        _check_A(case, ctx)
+    try:
+        if case['part'] == 'clamp':
+            _check_clamp(case, ctx)
+        elif case['part'] == 'bep':
+            _check_bep(case, ctx)
+        else:
+            _check_A(case, ctx)
+    except _Refused as e:
+        ctx.refuse(str(e))
 
 
 def run_shard(shard, ctx):
